@@ -9,6 +9,7 @@ import (
 	"github.com/go-kid/strings2"
 	"github.com/pkg/errors"
 	"reflect"
+	"strconv"
 )
 
 type valueAwarePostProcessors struct {
@@ -45,6 +46,23 @@ func isStringKind(p reflect.Type) bool {
 	return p.Kind() == reflect.String
 }
 
+func parseInteger(p reflect.Type, val string) (any, bool) {
+	if p.Kind() == reflect.Pointer {
+		p = p.Elem()
+	}
+	switch p.Kind() {
+	case reflect.Int, reflect.Int8, reflect.Int16, reflect.Int32, reflect.Int64:
+		if i, err := strconv.ParseInt(val, 10, 64); err == nil {
+			return i, true
+		}
+	case reflect.Uint, reflect.Uint8, reflect.Uint16, reflect.Uint32, reflect.Uint64:
+		if u, err := strconv.ParseUint(val, 10, 64); err == nil {
+			return u, true
+		}
+	}
+	return nil, false
+}
+
 func (c *valueAwarePostProcessors) PostProcessAfterInstantiation(component any, componentName string) (bool, error) {
 	return true, nil
 }
@@ -71,6 +89,9 @@ func (c *valueAwarePostProcessors) PostProcessProperties(properties []*component
 		if isStringKind(prop.Type) {
 			//a string field takes the text as written: re-parsing it as a literal would turn "1.10" into "1.1", "007" into "7", "TRUE" into "1"
 			parseVal = prop.TagVal
+		} else if i, ok := parseInteger(prop.Type, prop.TagVal); ok {
+			//an integer field keeps full 64-bit precision (the generic literal parser goes through float64)
+			parseVal = i
 		} else {
 			parseVal, err = strconv2.ParseAny(prop.TagVal)
 			if err != nil {
